@@ -167,6 +167,37 @@ def build(ck, storage, m, unit_trust, src, obs=None, regime="any"):
     return {"eng": eng, "hyps": hyps, "goals": {g: z3.Implies(pc, f) for g, f in G.items()}, "reach": {"reach_nonempty": z3.And(pc, rl != 0)}}
 
 
+def build_new(ck, src, obs=None):
+    """TrustAwarePeerSelector::new gives storage operations the storage floor: untrusted peers excluded below trust 0.2"""
+    eng = ck.engine() if obs is None else ck.meta_engine()
+    w = src.f64("cfg.trust_weight")
+    thr = src.f64("cfg.min_trust_threshold")
+    excl = src.bool("cfg.exclude_untrusted")
+    hyps = list(src.hyps) + [in_unit(w), in_unit(thr)]
+    if obs is None:
+        st = State()
+        cfg = mk_struct(eng, "TrustSelectionConfig", {"trust_weight": w, "min_trust_threshold": thr, "exclude_untrusted": excl})
+        provider = eng.alloc(st, VOpaque("trust provider"))
+        st1, selv = eng.call(ck.fn_in("TrustAwarePeerSelector", "new"), [provider, cfg], st)
+        pc = st1.pc
+        adt = eng.struct_adt("TrustAwarePeerSelector")
+        q = selv.f[adt.field_index("config")]
+        sc = selv.f[adt.field_index("storage_config")]
+        cadt = eng.struct_adt("TrustSelectionConfig")
+        g = lambda c, n: c.f[cadt.field_index(n)]  # noqa: E731
+        vals = {"q_w": g(q, "trust_weight"), "q_thr": g(q, "min_trust_threshold"), "q_excl": g(q, "exclude_untrusted"),
+                "s_thr": g(sc, "min_trust_threshold"), "s_excl": g(sc, "exclude_untrusted"), "s_w": g(sc, "trust_weight")}
+    else:
+        pc = z3.BoolVal(True)
+        f = lambda b: z3.simplify(z3.fpBVToFP(bv(int(b), 64), F64))  # noqa: E731
+        vals = {"q_w": f(obs["q_w"]), "q_thr": f(obs["q_thr"]), "q_excl": z3.BoolVal(bool(obs["q_excl"])), "s_thr": f(obs["s_thr"]),
+                "s_excl": z3.BoolVal(bool(obs["s_excl"])), "s_w": f(obs["s_w"])}
+    same = lambda a, b: z3.Or(z3.fpEQ(a, b), z3.And(z3.fpIsNaN(a), z3.fpIsNaN(b)))  # noqa: E731
+    G = {"storage_selection_excludes_peers_below_the_storage_floor_0_2": z3.And(vals["s_excl"], z3.fpEQ(vals["s_thr"], fpv(0.2)), in_unit(vals["s_w"])),
+         "query_configuration_is_the_one_given": z3.And(same(vals["q_w"], w), same(vals["q_thr"], thr), vals["q_excl"] == excl)}
+    return {"eng": eng, "hyps": hyps, "goals": {g_: z3.Implies(pc, f_) for g_, f_ in G.items()}, "reach": {"reach_end": pc}}
+
+
 def cases(tier):
     """(storage?, m, unit_trust, regime)"""
     out = [(True, 1, False, "any"), (True, 2, False, "any"), (True, 2, True, "low_bytes"), (False, 2, True, "low_bytes"), (True, 2, True, "grid_small")]
@@ -176,6 +207,7 @@ def cases(tier):
 
 
 def register_all(ck, tier):
+    ck.guarded("selector/new", lambda: register_new(ck))
     for (storage, m, unit, regime) in cases(tier):
         params = {"storage": storage, "m": m, "unit_trust": unit, "regime": regime}
         tag = f"selector/{'storage' if storage else 'query'}[m={m},{'trust in [0,1]' if unit else 'any trust'},{regime}]"
@@ -194,5 +226,18 @@ def register_all(ck, tier):
         ck.guarded(tag, reg)
 
 
+def register_new(ck):
+    src = Src()
+    R = build_new(ck, src)
+    rp = harness.make_replayer(ck, "trust_peer_selector", "selector_new", lambda s, obs: build_new(ck, s, obs), {})
+    ck.register_src("selector_new", {}, src)
+    for g, f in R["goals"].items():
+        ck.prove(f"selector/new/{g}", R["eng"], R["hyps"], f, on_sat=rp, meta={"goal": g})
+    ck.reach("selector/new/reach_end", R["eng"], R["hyps"], R["reach"]["reach_end"])
+    ck.side("selector/new/side", R["eng"], R["hyps"], on_sat=rp)
+
+
 def rebuild(ck, driver, params):
+    if driver == "selector_new":
+        return lambda s, obs: build_new(ck, s, obs)
     return lambda s, obs: build(ck, params["storage"], params["m"], params["unit_trust"], s, obs, params.get("regime", "any"))
